@@ -1,6 +1,7 @@
 import Taskpool.Inv.Tame
 import Taskpool.Inv.Want
 import Taskpool.Inv.Seal
+import Taskpool.Inv.EndOK
 import Taskpool.Model.Bits
 /-! Boolean versions of the invariants of `Inv/Tame.lean`, evaluated by the driver on every model state the
 implementation was just shown to agree with.  They restate the `Prop` definitions clause by clause; they are a
@@ -129,7 +130,7 @@ def World.schedBit (w : World) (i : Nat) (p : Pool) : Bool :=
   (p.reqs.zipIdx.all fun (r, m) => !r.sched || w.ready.contains (i, .spawner m)) &&
   (p.apis.zipIdx.all fun (a, j) => !a.sched || w.ready.contains (i, .api j))
 
-/-- fifteen bits per pool (the last one: `Pool.Seal`, meaningful as long as nobody has called `unlock()`): the nine of `invBits2` on the state after the step, then: cancelled spawners stopped
+/-- sixteen bits per pool (the last two: `Pool.Seal` and `Pool.EndFiled`, meaningful as long as nobody has called `unlock()`): the nine of `invBits2` on the state after the step, then: cancelled spawners stopped
 (`CancOK`), no snapshot changed by this step, every spawner this step filed as cancelled (from outside its own handle)
 has a snapshot (`fromCaller`: the step was a call from outside the loop, so no spawner was inside its own handle; otherwise
 a spawner that was due to run is not examined); then `Want` and `SchedOK` (whoever has something to do is flagged,
@@ -141,6 +142,6 @@ def invBits3 (w w' : World) (fromCaller : Bool) : String :=
     b (p'.slotBit ((w'.cfgs[i]?.map (·.size0)).getD .inf)) ++ b p'.phaseBit ++ b (!p'.lost) ++ b p'.regBit ++
     b (p'.lifeBit && p'.groupsBit) ++ b p'.mapBit ++ b p'.accBit ++ b p'.flushBit ++ b p'.wakeBit ++
     b p'.cancBit ++ b (snapKeptBit p p') ++ b (p.snapTakenBit p' fromCaller) ++ b p'.wantBit ++ b (w'.schedBit i p') ++
-    b p'.sealBit)
+    b p'.sealBit ++ b p'.endBit)
 
 end Taskpool
